@@ -108,6 +108,13 @@ type Blob struct {
 
 func (Blob) isShape() {}
 
+// two union members (also tagged structs in the tagged atlases) with more than 8 fields each, of different types
+type Big9a struct{ A0, A1, A2, A3, A4, A5, A6, A7, A8 int }
+type Big9b struct{ B0, B1, B2, B3, B4, B5, B6, B7, B8 string }
+
+func (Big9a) isShape() {}
+func (Big9b) isShape() {}
+
 // byte slices and byte arrays side by side (one token carries them all, one after the other)
 type PaySum struct {
 	Payload []byte
@@ -154,6 +161,28 @@ type TwoMaps struct {
 
 // transformed to a struct that has its own (untagged) struct-map entry
 type TrSq struct{ V string }
+
+// transformed to a struct that is itself TAGGED in the tagged atlases (a tagged transform whose serial form carries a tag
+// of its own)
+type TrIn struct {
+	X int
+	Y string
+}
+
+// a named STRING type that also has a (non-identity) transform entry: as a map key it is a string kind, and string-kinded
+// keys are written and read as they are
+type TrKey string
+
+// structs with more fields than a one-byte counter holds (and more than a signed one does)
+var hugeT130, hugeT260 = hugeStruct(130), hugeStruct(260)
+
+func hugeStruct(n int) reflect.Type {
+	var fs []reflect.StructField
+	for i := 0; i < n; i++ {
+		fs = append(fs, reflect.StructField{Name: fmt.Sprintf("F%03d", i), Type: reflect.TypeOf(int(0))})
+	}
+	return reflect.StructOf(fs)
+}
 
 // transformed to a one-entry map (a serial form that is itself a container)
 type TrMap struct {
@@ -305,6 +334,17 @@ var transforms = []trPair{
 	{5,
 		func(t TrSq) (Square, error) { return Square{t.V}, nil },
 		func(q Square) (TrSq, error) { return TrSq{q.S}, nil }},
+	{13,
+		func(k TrKey) (string, error) { return "c/" + string(k), nil },
+		func(s string) (TrKey, error) {
+			if !strings.HasPrefix(s, "c/") {
+				return "", fmt.Errorf("want the c/ prefix")
+			}
+			return TrKey(s[2:]), nil
+		}},
+	{12,
+		func(t TrIn) (Inner, error) { return Inner{t.X, t.Y}, nil },
+		func(i Inner) (TrIn, error) { return TrIn{i.X, i.Y}, nil }},
 	{6,
 		func(t TrMap) (map[string]int, error) { return map[string]int{t.K: t.V}, nil },
 		func(m map[string]int) (TrMap, error) {
@@ -502,12 +542,14 @@ func buildAtlases() {
 	trFuncID[reflect.TypeOf(TrBytes{})] = 3
 	trFuncID[reflect.TypeOf(TrComp{})] = 4
 	trFuncID[reflect.TypeOf(TrSq{})] = 5
+	trFuncID[reflect.TypeOf(TrIn{})] = 12
+	trFuncID[reflect.TypeOf(TrKey(""))] = 13
 	trFuncID[reflect.TypeOf(TrMap{})] = 6
 	trFuncID[reflect.TypeOf(TrOpt{})] = 7
 	trFuncID[reflect.TypeOf(TrW{})] = 8
 	trFuncID[reflect.TypeOf(TrN{})] = 9
 	trFuncID[reflect.TypeOf(Digest{})] = 10
-	structs := []interface{}{Inner{}, WithPtr{}, Emb{}, Rec{}, Tagged{}, OmitAll{}, Nums{}, HasShape{}, HasNoAtlas{}, MapKeyed{}, TwoMaps{}, TwoTr{}, Wide{}, Fold{}, PaySum{}, Narrow{}, Blob{}, Circle{}, Square{}}
+	structs := []interface{}{Inner{}, WithPtr{}, Emb{}, Rec{}, Tagged{}, OmitAll{}, Nums{}, HasShape{}, HasNoAtlas{}, MapKeyed{}, TwoMaps{}, TwoTr{}, Wide{}, Fold{}, PaySum{}, Narrow{}, reflect.New(hugeT130).Elem().Interface(), reflect.New(hugeT260).Elem().Interface(), Big9a{}, Big9b{}, Blob{}, Circle{}, Square{}}
 	mk := func(id int, sort atlas.KeySortMode, mode atlas.KeySortMode, tags bool, extra ...*atlas.AtlasEntry) {
 		var es []*atlas.AtlasEntry
 		{
@@ -520,23 +562,24 @@ func buildAtlases() {
 		tag := 100
 		for _, s := range structs {
 			b := atlas.BuildEntry(s)
-			if tags && (reflect.TypeOf(s) == reflect.TypeOf(Inner{}) || reflect.TypeOf(s) == reflect.TypeOf(Circle{}) || reflect.TypeOf(s) == reflect.TypeOf(TwoMaps{}) || reflect.TypeOf(s) == reflect.TypeOf(Blob{})) {
+			if tags && (reflect.TypeOf(s) == reflect.TypeOf(Inner{}) || reflect.TypeOf(s) == reflect.TypeOf(Circle{}) || reflect.TypeOf(s) == reflect.TypeOf(TwoMaps{}) || reflect.TypeOf(s) == reflect.TypeOf(Blob{}) ||
+				reflect.TypeOf(s) == reflect.TypeOf(Wide{}) || reflect.TypeOf(s) == hugeT130 || reflect.TypeOf(s) == reflect.TypeOf(Big9a{}) || reflect.TypeOf(s) == reflect.TypeOf(Big9b{})) {
 				b = b.UseTag(tag)
 				tag += 1000
 			}
 			es = append(es, b.StructMap().AutogenerateWithSortingScheme(mode).Complete())
 		}
-		blob, circle, square := es[len(es)-3], es[len(es)-2], es[len(es)-1]
-		es = append(es, atlas.BuildEntry((*Shape)(nil)).KeyedUnion().Of(map[string]*atlas.AtlasEntry{"circle": circle, "sq": square, "Tblob": blob}))
-		tt, sqTag, optTag, wTag, nTag, dTag := -1, -1, -1, -1, -1, -1
+		big9a, big9b, blob, circle, square := es[len(es)-5], es[len(es)-4], es[len(es)-3], es[len(es)-2], es[len(es)-1]
+		es = append(es, atlas.BuildEntry((*Shape)(nil)).KeyedUnion().Of(map[string]*atlas.AtlasEntry{"circle": circle, "sq": square, "Tblob": blob, "big9a": big9a, "big9b": big9b}))
+		tt, sqTag, optTag, wTag, nTag, dTag, inTag, compTag := -1, -1, -1, -1, -1, -1, -1, -1
 		if tags {
-			tt, sqTag, optTag, wTag, nTag, dTag = 23, 25, 27, 28, 29, 30
+			tt, sqTag, optTag, wTag, nTag, dTag, inTag, compTag = 23, 25, 27, 28, 29, 30, 33, 34
 		}
 		ksTr := 1
 		if id == 4 {
 			ksTr = 11
 		}
-		es = append(es, trEntry(KeyStruct{}, ksTr, -1), trEntry(TrNum(0), 2, tt), trEntry(TrBytes{}, 3, tt+1), trEntry(TrComp{}, 4, -1), trEntry(TrSq{}, 5, sqTag), trEntry(TrMap{}, 6, -1), trEntry(TrOpt{}, 7, optTag), trEntry(TrW{}, 8, wTag), trEntry(TrN{}, 9, nTag), trEntry(Digest{}, 10, dTag))
+		es = append(es, trEntry(KeyStruct{}, ksTr, -1), trEntry(TrNum(0), 2, tt), trEntry(TrBytes{}, 3, tt+1), trEntry(TrComp{}, 4, compTag), trEntry(TrSq{}, 5, sqTag), trEntry(TrMap{}, 6, -1), trEntry(TrOpt{}, 7, optTag), trEntry(TrW{}, 8, wTag), trEntry(TrN{}, 9, nTag), trEntry(Digest{}, 10, dTag), trEntry(TrIn{}, 12, inTag), trEntry(TrKey(""), 13, -1))
 		es = append(es, extra...)
 		a := atlas.MustBuild(es...)
 		if id != 6 {
@@ -559,7 +602,7 @@ func buildAtlases() {
 	mmU := mmEntry(map[string]interface{}{}, -1, atlas.KeySortMode_RFC7049)
 	{
 		save := structs
-		structs = []interface{}{Inner{}, WithPtr{}, Rec{}, Tagged{}, OmitAll{}, Nums{}, HasShape{}, HasNoAtlas{}, MapKeyed{}, TwoMaps{}, TwoTr{}, Wide{}, Fold{}, PaySum{}, Blob{}, Circle{}, Square{}}
+		structs = []interface{}{Inner{}, WithPtr{}, Rec{}, Tagged{}, OmitAll{}, Nums{}, HasShape{}, HasNoAtlas{}, MapKeyed{}, TwoMaps{}, TwoTr{}, Wide{}, Fold{}, PaySum{}, reflect.New(hugeT130).Elem().Interface(), reflect.New(hugeT260).Elem().Interface(), Big9a{}, Big9b{}, Blob{}, Circle{}, Square{}}
 		narrowEntry := atlas.BuildEntry(Narrow{}).StructMap().
 			AddField("A", atlas.StructMapEntry{SerialName: "a", Type: reflect.TypeOf(int64(0))}).
 			AddField("B", atlas.StructMapEntry{SerialName: "b", Type: reflect.TypeOf(uint64(0))}).
@@ -682,7 +725,7 @@ func rootTypes() []reflect.Type {
 		float32(0), float64(0), []byte{}, MyInt(0), MyI8(0), MyI16(0), MyU16(0), MyU32(0), MyStr(""), MyBool(false), MyF32(0), MyBytes{},
 		Arr4{}, Arr0{}, [3]byte{}, []MyByte{}, [2]MyByte{},
 		Inner{}, WithPtr{}, Emb{}, EmbPtr{}, Rec{}, Tagged{}, OmitAll{}, Nums{}, KeyStruct{}, TrNum(0), TrBytes{}, TrComp{}, HasShape{},
-		NoAtlas{}, HasNoAtlas{}, MapKeyed{}, MapInt{}, StrMap{}, Circle{}, Square{}, TwoMaps{}, TrSq{}, []TrSq{}, map[string]TrSq{}, TrMap{}, []TrMap{}, map[string]TrMap{}, [2]TrMap{}, TrOpt{}, []TrOpt{}, TwoTr{}, Wide{}, TrW{}, TrN{}, []TrW{}, []TrN{}, Digest{}, []Digest{}, map[string]Digest{}, KeyedMap{}, []KeyedMap{}, Fold{}, []Fold{}, Blob{}, PaySum{}, []PaySum{}, Narrow{}, []uint64{}, map[string]Shape{}, [3]Shape{}, (*Circle)(nil), map[string]NoAtlas{}, map[string][]NoAtlas{}, []map[string]int{}, (*int64)(nil), []int64{}, [2][]byte{}, [1]*[4]byte{}, [2]interface{}{}, [2]map[string]int{}, [2][]int{},
+		NoAtlas{}, HasNoAtlas{}, MapKeyed{}, MapInt{}, StrMap{}, Circle{}, Square{}, TwoMaps{}, TrSq{}, []TrSq{}, map[string]TrSq{}, TrMap{}, []TrMap{}, map[string]TrMap{}, [2]TrMap{}, TrOpt{}, []TrOpt{}, TwoTr{}, Wide{}, TrW{}, TrN{}, []TrW{}, []TrN{}, Digest{}, []Digest{}, map[string]Digest{}, KeyedMap{}, []KeyedMap{}, Fold{}, []Fold{}, Blob{}, PaySum{}, []PaySum{}, Narrow{}, []uint64{}, map[string]Shape{}, [3]Shape{}, (*Circle)(nil), struct{ Circle }{}, TrIn{}, []TrIn{}, TrKey(""), map[TrKey]int{}, []TrKey{}, Big9a{}, Big9b{}, map[string]*int16{}, map[string]*uint8{}, reflect.New(hugeT130).Elem().Interface(), reflect.New(hugeT260).Elem().Interface(), map[string]NoAtlas{}, map[string][]NoAtlas{}, []map[string]int{}, (*int64)(nil), []int64{}, [2][]byte{}, [1]*[4]byte{}, [2]interface{}{}, [2]map[string]int{}, [2][]int{},
 		[]int{}, []string{}, [2]string{}, [0]int{}, [][]int{}, []*int{}, []interface{}{}, map[string]int{}, map[string]interface{}{},
 		map[string][]byte{}, map[string]map[string]string{}, map[KeyStruct]string{}, map[TrNum]int{}, map[int]int{}, map[MyStr]int{},
 		(*int)(nil), (**string)(nil), (*[]int)(nil), (*Inner)(nil), (***Inner)(nil), (*interface{})(nil), []*Inner{}, map[string]*Rec{},
